@@ -461,7 +461,16 @@ func (eq *eq) Execute(searcher index.GetSearcher, seriesID common.SeriesID, tr *
 }
 
 func (eq *eq) ShouldSkip(tagFamilyFilters index.FilterOp) (bool, error) {
-	return !tagFamilyFilters.Eq(eq.Key.Tags[0], eq.Expr.String()), nil
+	// The block filters are built from the stored encoding of the tag values (e.g. the 8-byte form of an
+	// int64) and, for array tags, from the encoded elements. Probe them with the same encoding instead of
+	// the literal's display text. A row equal to the literal holds every one of its encoded elements, so
+	// the block can be skipped as soon as one of them is absent.
+	for _, b := range eq.Expr.Bytes() {
+		if !tagFamilyFilters.Eq(eq.Key.Tags[0], convert.BytesToString(b)) {
+			return true, nil
+		}
+	}
+	return false, nil
 }
 
 func (eq *eq) MarshalJSON() ([]byte, error) {
